@@ -605,6 +605,17 @@ class TEBDContract(SeqMixin, c08.MPSContract):
             return self.leaf_gate_split(cx, args[0], args[1], kwargs, node)
         if name == ".norm" and isinstance(args[0], c08.Site):
             return cx.Real("site_norm")
+        if name == ".normalize" and isinstance(args[0], Ref) and args[0].kind == "MPS":
+            # [leaf] MatrixProductState.normalize(insert=c): divides site c by the norm of the WHOLE state: exact
+            # renormalisation in any gauge (used for periodic chains, which have no canonical form)
+            cx.oblige(f"renorm@{node.lineno}:whole-state normalisation inserted at a site", "call-arg",
+                      "insert" in kwargs and not args[1:], node.lineno)
+            idx = kwargs.get("insert")
+            m = cx.fields(args[0])
+            m["isL"] = z3.Store(m["isL"], idx, cx.Bool("hv"))
+            m["isR"] = z3.Store(m["isR"], idx, cx.Bool("hv"))
+            cx.events.append(("renorm", idx))
+            return cx.Real("state_norm")
         if name == "__binop__" and args[0] == "Div" and isinstance(args[1], c08.Site):
             return ("scaled-site", args[1], args[2])
         if name == "__setitem__" and isinstance(args[0], Ref) and args[0].kind == "MPS":
@@ -628,10 +639,16 @@ class TEBDContract(SeqMixin, c08.MPSContract):
             raise Unsupported("gate_split_ call shape")
         a, b = where
         nb = nbonds(L, cyclic)
-        # b = (a+1) mod L  written without mod: a+1 if a < L-1 else 0
-        cx.oblige(f"gate@{line}:acts-on-a-bond-(b,(b+1) mod L)-of-the-chain", "call-arg",
-                  And(0 <= a, a < nb, Z(b) == If(a == L - 1, 0, a + 1)), line)
+        # the site pair is a bond of the chain, spelled in the order the Hamiltonian stores its terms (LocalHam1D keeps
+        # every term -- also the periodic one -- under the sorted key and returns the matrix in that orientation): an
+        # inner bond (a, a+1), or the periodic bond (0, L-1) of a cyclic chain.  Its number is a, resp. L-1.
+        inner = And(0 <= a, Z(b) == a + 1, a + 1 < L)
+        wrap = And(bool(cyclic), Z(a) == 0, Z(b) == L - 1, L > 2) if not is_z3(cyclic) else \
+            And(cyclic, Z(a) == 0, Z(b) == L - 1, L > 2)
+        cx.oblige(f"gate@{line}:acts-on-a-bond-of-the-chain-in-stored-(ascending)-site-order", "call-arg",
+                  Or(inner, wrap), line)
         cx.oblige(f"gate@{line}:gate-was-built-for-these-sites", "call-arg", veq(tuple(U.sites), (a, b)), line)
+        a = If(inner, Z(a), L - 1)  # (bond number; the gauge bookkeeping below is for open chains only)
         f["g_S"] = G_(Z(a), R(U.frac), f["g_S"])
         f["g_amt"] = z3.Store(f["g_amt"], a, z3.Select(f["g_amt"], a) + R(U.frac))
         f["g_cnt"] = z3.Store(f["g_cnt"], a, z3.Select(f["g_cnt"], a) + 1)
